@@ -151,11 +151,11 @@ func RunConc(sc *ConcScenario, want Want) *ConcResult {
 	budget := uint64(200000)
 	sim := simrt.New(simrt.Config{Seed: sc.SchedSeed, Strategy: sc.Strategy, Epoch: sc.Epoch, StepBudget: budget, Replay: sc.Replay})
 	defer sim.Close()
-	w := &World{sim: sim, nextVal: 900000, nextKey: freshBase}
+	w := &World{sim: sim}
 	cacheFam := sc.Family == "cache"
 	if cacheFam {
 		var cb func(int, int64)
-		if sc.CBKind > 0 && sc.Ctor.CB {
+		if sc.CBKind > 0 && sc.Ctor.CB && sc.Ctor.Ctor != "plain" {
 			cb, w.cbAtCtor = w.callback(sc.CBKind)
 		}
 		w.c = NewCacheKind(sc.Ctor, cb)
